@@ -26,9 +26,11 @@ import warnings
 
 from harness import world
 from harness.common import Ctx
+from harness.translate import readimpl as readimpl_tr
 from harness.translate import routes as routes_tr
 
-GENERATED = [("harness.translate.routes", "translate", "gen/Routes_gen.v")]
+GENERATED = [("harness.translate.routes", "translate", "gen/Routes_gen.v"),
+             ("harness.translate.readimpl", "translate", "gen/ReadImpl_gen.v")]
 
 MANIFEST = {
     "technique": "Coq proof over the GET-route/API reachability table and queue-view shape generated from pynmon's AST + "
@@ -356,6 +358,45 @@ class ShiftedClock:
         return False
 
 
+class NoLockWait:
+    """The harness is the only client of the SQLite file while a page is served, so waiting for a lock can never
+    succeed: a statement that blocks on a lock held by the same request (a sweep writing through two connections)
+    fails after 0.1 s instead of after minutes of busy-timeout x retries.  Only lock WAITING is shortened."""
+
+    def __enter__(self):
+        import sqlite3
+        self.saved = []
+        real_connect = sqlite3.connect
+
+        class Conn(sqlite3.Connection):
+            def execute(self, sql, *a):
+                if isinstance(sql, str) and sql.strip().lower().startswith("pragma busy_timeout"):
+                    sql = "PRAGMA busy_timeout=100"
+                return super().execute(sql, *a)
+
+        def connect(*a, **kw):
+            kw["timeout"] = 0.1
+            kw.setdefault("factory", Conn)
+            return real_connect(*a, **kw)
+
+        self.saved.append((sqlite3, "connect", real_connect))
+        sqlite3.connect = connect
+        try:
+            import pynenc.util.sqlite_utils as su
+            cur = getattr(su, "time", None)
+            if isinstance(cur, _types.ModuleType):
+                self.saved.append((su, "time", cur))
+                su.time = _ModProxy(cur, sleep=lambda _s: None)
+        except Exception:  # noqa: BLE001
+            pass
+        return self
+
+    def __exit__(self, *a):
+        for mod, attr, val in reversed(self.saved):
+            setattr(mod, attr, val)
+        return False
+
+
 def configured_durations(app) -> dict[str, float]:
     """every duration the app is configured with (name -> seconds), read off the live config objects: the
     thresholds past which time-driven housekeeping (retention sweeps, dead-runner / stuck-invocation handling,
@@ -563,6 +604,12 @@ RICH_OPS = [("heartbeat", "r1"), ("heartbeat", "r2"),
             ("call", "ok"), ("call", "fail"), ("call", "after"),
             ("run", "r1"), ("run", "r2"), ("run", "r1"), ("claim", "r1"), ("start", "r2"), ("claim", "r2"),
             ("requeue", 7), ("call", "ok")]
+# states that get old: exactly one finished invocation (SUCCESS / FAILED) among unfinished ones, and the rich one
+AGED_STATES = [
+    ("one_success", [("heartbeat", "r1"), ("call", "ok"), ("call", "ok"), ("call", "fail"), ("run", "r1"), ("claim", "r1")]),
+    ("one_failed", [("heartbeat", "r1"), ("call", "fail"), ("call", "ok"), ("call", "ok"), ("run", "r1")]),
+    ("rich", RICH_OPS),
+]
 
 
 def valid_values(w: World, name: str, typ: str) -> list | None:
@@ -642,7 +689,8 @@ def run_aged(ctx: Ctx, w: World, client, live_get, reached: set, stats: dict, di
     """the same routes and read-only API methods while the state is `shift` seconds old (clock ahead)"""
     n = 0
     for shift in shifts:
-        n += run_api_level(ctx, w, reached, stats, shift=shift)
+        if reached is not None:
+            n += run_api_level(ctx, w, reached, stats, shift=shift)
         for (m, path, mod, fn, robj) in live_get:
             urls = gen_requests(ctx.rng, w, path, robj, mod, per_route)
             for url in urls:
@@ -681,7 +729,7 @@ def request_and_judge(ctx: Ctx, w: World, client, method_path: str, url: str, st
     before = w.snapshot()
     with warnings.catch_warnings():
         warnings.simplefilter("ignore")
-        with ShiftedClock(shift):
+        with ShiftedClock(shift), NoLockWait():
             resp = client.get(url, follow_redirects=False)
     after = w.snapshot()
     code = resp.status_code
@@ -834,7 +882,7 @@ def run_api_level(ctx: Ctx, w: World, reached: set[str], stats: dict, shift: flo
     n = 0
     for ctor, fn in sorted(recs.items()):
         before = w.snapshot()
-        with ShiftedClock(shift):
+        with ShiftedClock(shift), NoLockWait():
             outs = fn()
         after = w.snapshot()
         n += max(1, len(outs))
@@ -933,6 +981,10 @@ def main(ctx: Ctx) -> int:
     world.quiet()
     warnings.filterwarnings("ignore")
     info = ctx.translate("routes", routes_tr.translate, "gen/Routes_gen.v")
+    impl_info = ctx.translate("readimpl", readimpl_tr.translate, "gen/ReadImpl_gen.v")
+    if impl_info.get("rows_with_effects_other_than_reads"):
+        ctx.log("implementations of read-only classified methods with effects other than reads:",
+                json.dumps(impl_info["rows_with_effects_other_than_reads"])[:1500])
     ctx.prove("Props/C20.v")
     stats: dict = {"status_codes": {}, "changed": {}, "api_calls": {}, "api_outcomes": {}, "requests_per_route": {},
                    "flavours": {}, "queue_lengths": {}, "filter_matrix_requests": {}, "clock_shifts_s": {}}
@@ -984,13 +1036,21 @@ def main(ctx: Ctx) -> int:
         #           list filters with selecting values; then everything again with the clock ahead of every configured
         #           duration (retention, dead-runner, stuck-invocation thresholds): the state has aged, nothing else
         for kind in ("mem", "sqlite"):
-            w = build_world(kind, scratch, RICH_OPS)
+            w = build_world(kind, scratch, RICH_OPS)      # a fresh state for the routes, another for the API methods
             w.activate()
-            n_eval += run_api_level(ctx, w, reached, stats)
             n_eval += run_filter_matrix(ctx, w, client, live_get, stats, distinct, 400 if ctx.thorough else 60)
-            shifts = clock_shifts(w.app, ctx.thorough)
-            ctx.notes["configured_durations_s"] = configured_durations(w.app)
-            n_eval += run_aged(ctx, w, client, live_get, reached, stats, distinct, shifts, 3 if ctx.thorough else 2)
+            n_eval += run_api_level(ctx, build_world(kind, scratch, RICH_OPS), reached, stats)
+            for sname, sops in AGED_STATES:
+                w = build_world(kind, scratch, sops)
+                shifts = clock_shifts(w.app, ctx.thorough)
+                ctx.notes["configured_durations_s"] = configured_durations(w.app)
+                for shift in shifts:
+                    # route level and API level each on a state of their own (a sweep runs once)
+                    w = build_world(kind, scratch, sops)
+                    w.activate()
+                    n_eval += run_aged(ctx, w, client, live_get, None, stats, distinct, [shift],
+                                       3 if ctx.thorough else (2 if sname == "rich" else 1))
+                    n_eval += run_api_level(ctx, build_world(kind, scratch, sops), reached, stats, shift=shift)
         # ---- (3) API level
         n_eval += run_broker_sequences(ctx, scratch, 400 if ctx.thorough else 30, stats)
         n_states = 24 if ctx.thorough else 3
@@ -1172,7 +1232,7 @@ def replay(ctx: Ctx, path: str) -> int:
             before = w.snapshot()
             with warnings.catch_warnings():
                 warnings.simplefilter("ignore")
-                with ShiftedClock(shift):
+                with ShiftedClock(shift), NoLockWait():
                     r = client.get(rp["url"], follow_redirects=False)
             after = w.snapshot()
             idx = {i: k for k, i in enumerate(w.ids)}
@@ -1186,7 +1246,7 @@ def replay(ctx: Ctx, path: str) -> int:
         if rp["kind"] == "api":
             w = build_world(rp["backend"], scratch, rp["ops"])
             before = w.snapshot()
-            with ShiftedClock(float(rp.get("clock_shift") or 0.0)):
+            with ShiftedClock(float(rp.get("clock_shift") or 0.0)), NoLockWait():
                 outs = api_recipes(w)[rp["ctor"]]()
             d = diff_snap(before, w.snapshot())
             print(rp["ctor"], outs, "changed:", json.dumps(d)[:2000] if d else "nothing")
